@@ -308,7 +308,11 @@ fn main() {
     let arg = |name: &str| args.iter().position(|a| a == name).and_then(|i| args.get(i + 1)).cloned();
     let threads: usize = arg("--threads").and_then(|s| s.parse().ok()).unwrap_or(16);
     if let Some(f) = arg("--spellings") {
-        let v: Value = serde_json::from_str(&std::fs::read_to_string(f).expect("spellings file")).expect("spellings json");
+        let mut v: Value = serde_json::from_str(&std::fs::read_to_string(f).expect("spellings file")).expect("spellings json");
+        // members of the string class that TLC cannot print (it writes non-ASCII characters as `?`)
+        for extra in ["\"héé\"", "\"日本\"", "\"💣\""] {
+            v["str"].as_array_mut().unwrap().push(json!(extra));
+        }
         SPELLINGS.set(v).unwrap();
     }
     let seed: u64 = std::env::var("VERIF_SEED").ok().and_then(|s| s.parse().ok()).unwrap_or(1);
